@@ -43,6 +43,7 @@ pub fn vcf_header(cols: &[String]) -> String {
     let mut s = String::new();
     s.push_str("##fileformat=VCFv4.3\n");
     s.push_str("##FILTER=<ID=PASS,Description=\"All filters passed\">\n");
+    s.push_str("##FILTER=<ID=q10,Description=\"Quality below 10\">\n");
     s.push_str("##contig=<ID=chr1,length=100000>\n##contig=<ID=chr2,length=100000>\n");
     s.push_str("##INFO=<ID=DP,Number=1,Type=Integer,Description=\"Depth\">\n");
     s.push_str("##FORMAT=<ID=GT,Number=1,Type=String,Description=\"Genotype\">\n");
@@ -70,10 +71,12 @@ pub fn vcf_record(cols: &[String], r: &Rec, index: usize, extra: bool) -> String
     let alt: Vec<&str> = if n_alt == 0 { vec!["."] } else { alts.iter().take(n_alt as usize).copied().collect() };
     let pos = if r.bad && index % 2 == 0 { "notanumber".to_string() } else { r.pos.to_string() };
     let mut s = format!(
-        "{}\t{}\t.\tA\t{}\t.\t.\t{}\t{}",
+        "{}\t{}\t.\tA\t{}\t.\t{}\t{}\t{}",
         r.contig,
         pos,
         alt.join(","),
+        // the FILTER column is none of the tool's business: '.', PASS and a failing filter alternate
+        ["q10", ".", "PASS"][index % 3],
         if extra { "DP=14" } else { "." },
         if r.nogt { "DP" } else if extra { "GT:DP" } else { "GT" }
     );
@@ -95,6 +98,11 @@ pub fn vcf_record(cols: &[String], r: &Rec, index: usize, extra: bool) -> String
     }
     s.push('\n');
     s
+}
+
+/// Like `vcf_text`, but the header does NOT declare the GT format key (legal to read: the key is reserved by the format).
+pub fn vcf_text_undeclared_gt(cols: &[String], recs: &[Rec], extra: bool) -> String {
+    vcf_text(cols, recs, extra).replace("##FORMAT=<ID=GT,Number=1,Type=String,Description=\"Genotype\">\n", "")
 }
 
 pub fn vcf_text(cols: &[String], recs: &[Rec], extra: bool) -> String {
@@ -191,6 +199,12 @@ pub fn raw_bcf(vcf: &str) -> Result<Vec<u8>, String> {
 /// Uncompressed BCF 2.2 bytes written by our own encoder, directly from the BCF specification
 /// (no third-party writer in the loop).  FORMAT carries GT only; contigs chr1, chr2.
 pub fn own_bcf(cols: &[String], recs: &[Rec]) -> Vec<u8> {
+    own_bcf_dict(cols, recs, 0)
+}
+
+/// `n_info` INFO keys are declared in front of the FORMAT keys (an annotation-style header): the dictionary index of GT is then
+/// n_info + 1, and from 128 on it no longer fits the one-byte typed integer a small header gets away with.
+pub fn own_bcf_dict(cols: &[String], recs: &[Rec], n_info: usize) -> Vec<u8> {
     let mut text = String::new();
     text.push_str("##fileformat=VCFv4.3\n");
     text.push_str("##FILTER=<ID=PASS,Description=\"All filters passed\">\n");
@@ -201,6 +215,9 @@ pub fn own_bcf(cols: &[String], recs: &[Rec]) -> Vec<u8> {
         text.push_str("##contig=<ID=chr1,length=100000,IDX=1>\n##contig=<ID=chr2,length=100000,IDX=0>\n");
     } else {
         text.push_str("##contig=<ID=chr1,length=100000>\n##contig=<ID=chr2,length=100000>\n");
+    }
+    for k in 0..n_info {
+        text.push_str(&format!("##INFO=<ID=ANN{k},Number=1,Type=Integer,Description=\"annotation {k}\">\n"));
     }
     text.push_str("##FORMAT=<ID=GT,Number=1,Type=String,Description=\"Genotype\">\n");
     let any_nogt = recs.iter().any(|r| r.nogt);
@@ -241,7 +258,10 @@ pub fn own_bcf(cols: &[String], recs: &[Rec]) -> Vec<u8> {
             shared.extend_from_slice(a.as_bytes());
         }
         shared.push(0x00); // FILTER: none
-        let mut indiv = vec![0x11, 0x01]; // FORMAT key: dictionary index 1 = GT
+        // FORMAT key: dictionary index of GT as a typed integer (int8 up to 127, int16 beyond)
+        let gt_idx = n_info + 1;
+        let key = |idx: usize| -> Vec<u8> { if idx <= 127 { vec![0x11, idx as u8] } else { vec![0x12, (idx & 0xff) as u8, (idx >> 8) as u8] } };
+        let mut indiv = key(gt_idx);
         indiv.push(((ploidy as u8) << 4) | 1); // int8 vector of length `ploidy`
         for call in &calls {
             for (i, (a, phased)) in call.iter().enumerate() {
@@ -254,7 +274,8 @@ pub fn own_bcf(cols: &[String], recs: &[Rec]) -> Vec<u8> {
         }
         if r.nogt {
             // FORMAT key: dictionary index 2 = DP (PASS = 0, GT = 1), one int8 per sample
-            indiv = vec![0x11, 0x02, 0x11];
+            indiv = key(gt_idx + 1);
+            indiv.push(0x11);
             for ci in 0..cols.len() {
                 indiv.push(5 + ci as u8);
             }
